@@ -99,7 +99,7 @@ def run(ctx):
     r10 = ctx.rule("C01.R10", "APPLY: constructor + _precompute + apply of the multiplicative appliers normfactor, lumi, staterror, shapesys, shapefactor and, with every interpolation code they accept, of normsys and histosys (cell value = the code's scalar reference function of that cell's down/nominal/up data and the modifier's own parameter, else the neutral element), interpreted END TO END (real ParamViewer/_TensorViewer/interpolators, list tensors) on 2 modifiers x 2 samples x 3 channels x 4 bins, unbatched and with 2 batch rows: the factor in cell (modifier, sample, row, bin) is the modifier's own parameter component for that bin in that row where the sample declares it, and exactly 1 elsewhere", "APPLY", floor=20)
     _apply_end_to_end(ctx, r10, reg)
     _apply_interpolating(ctx, r10, reg)
-    r12 = ctx.rule("C01.R12", "RATE: _MainModel constructed and evaluated END TO END over list tensors with recording appliers (two multiplicative appliers with two modifiers each, one additive applier, one applier without modifiers; 2 samples x 3 bins; unbatched and 2 batch rows; each clip on and off; by-sample and summed): rate[row][bin] = sum over samples of clipS?(prod over all factor cells x (nominal + sum over all delta cells)), then clipB? -- every axis reduction over the right axis", "RATE", floor=8)
+    r12 = ctx.rule("C01.R12", "RATE: the main model constructed THROUGH Model.__init__ (its clipping options travel through the real constructor wiring) and evaluated END TO END over list tensors with recording appliers (two multiplicative appliers with two modifiers each, one additive applier, one applier without modifiers; 2 samples x 3 bins; unbatched and 2 batch rows; each clip on and off; by-sample and summed): rate[row][bin] = sum over samples of clipS?(prod over all factor cells x (nominal + sum over all delta cells)), then clipB? -- every axis reduction over the right axis", "RATE", floor=8)
     _rate_end_to_end(ctx, r12)
     r13 = ctx.rule("C01.R13", "LAYOUT: the channel summary every model configuration is built on (interpreted, shared with C12.R8): channels sorted, bin counts and slices keyed and tiling in THAT order whatever the listing order", "LAYOUT", floor=1)
     from .c12 import _summary_interpreted
@@ -234,7 +234,10 @@ def run(ctx):
     try:
         attrs = {}
         mods = {"a": Obj("A", {"op_code": "addition", "name": "a"}), "m": Obj("M", {"op_code": "multiplication", "name": "m"}), "a2": Obj("A2", {"op_code": "addition", "name": "a2"})}
-        env = {"config": Obj("config"), "modifiers": mods, "nominal_rates": Poly.atom("NOMRAW"), "batch_size": None, "clip_sample_data": None, "clip_bin_data": None, "pyhf": Obj("pyhf"), "log": Obj("log"), "events": Obj("events")}
+        from ..objmodel import World as _W
+        env = {"pyhf": Obj("pyhf"), "log": Obj("log"), "events": Obj("events")}
+        # formal parameters other than the three this rule is about keep their declared defaults
+        env.update(_W._bind(mm.methods["__init__"].node, [Obj("config")], {"modifiers": mods, "nominal_rates": Poly.atom("NOMRAW")}, skip_self=True))
         Interp(env, attrs, {}, cls_name="_MainModel").run(A.strip_docstring(mm.methods["__init__"].node.body))
         if attrs.get("_delta_mods") == ["a", "a2"] and attrs.get("_factor_mods") == ["m"]:
             ctx.holds(r2, f"{PDF}::_MainModel.__init__", "addition -> _delta_mods, multiplication -> _factor_mods")
@@ -816,7 +819,25 @@ def _rate_end_to_end(ctx, rid):
             w.add_class(mm)
             mods = {k: Obj(k, {"op_code": op, "name": k}) for k, (op, n) in appliers.items()}
             nominal = listnp.T([[[[at(f"nom_s{s_}_b{b_}") for b_ in range(nB)]] for s_ in range(nS)]])
-            inst = w.new(mm, [Obj("config"), mods, nominal], {"batch_size": None if bs is None else c(bs), "clip_sample_data": None if clipS is None else at(clipS), "clip_bin_data": None if clipB is None else at(clipB)})
+            # the main model is reached the way users reach it: through Model.__init__ (configuration, builder pipeline
+            # and constraint model are stand-ins; the clipping options travel through the real constructor wiring)
+            mdl = repo.cls(PDF, "Model")
+            w.add_class(mdl)
+            cfg_obj = Obj("config", {"nmaindata": c(nS * nB), "nauxdata": c(0)})
+            cm_obj = Obj("constraint_model")
+            w.base.update({
+                "_ModelConfig": lambda a, k: cfg_obj,
+                "_nominal_and_modifiers_from_spec": lambda a, k: (mods, nominal),
+                "_ConstraintModel": lambda a, k: cm_obj,
+                "_tensorviewer_from_sizes": lambda a, k: Obj("fullpdf_tv"),
+                ".has_pdf": lambda recv, a, k: False if recv is cm_obj else _not_handled(),
+            })
+            w.ext = None
+            w.module_env.update({"histfactory_set": Obj("histfactory_set"), "schema": Obj("schema")})
+            model = w.new(mdl, [{"channels": []}], {"batch_size": None if bs is None else c(bs), "validate": False, "clip_sample_data": None if clipS is None else at(clipS), "clip_bin_data": None if clipB is None else at(clipB)})
+            inst = model.attrs.get("main_model")
+            if not isinstance(inst, Obj) or getattr(inst, "cls", None) is not mm:
+                raise Undecided("Model.__init__ does not store a _MainModel as main_model")
             pars = listnp.T([at("p0")]) if bs is None else listnp.T([[at("p0")], [at("p1")]])
             out = w.call_method(inst, "expected_data", [pars], {"return_by_sample": by_sample})
 
@@ -849,6 +870,11 @@ def _rate_end_to_end(ctx, rid):
             ctx.violated(rid, mm, f"_MainModel [{lab}]", f"on a well-formed configuration the code indexes outside its own tensors: {e}")
         except (Undecided, KeyError, TypeError, ValueError, IndexError, AttributeError) as e:
             ctx.unrecognised(rid, mm, f"_MainModel [{lab}]", f"not interpretable: {type(e).__name__}: {e}")
+
+
+def _not_handled():
+    from ..alg import NotHandled
+    raise NotHandled()
 
 
 def _strs(v):
